@@ -1098,6 +1098,10 @@ def probe_names(ctx):
         if nm in ("a'b", '_x') and res != 'same':
             ctx.violation('round trip fails for a NAME variable', dict(
                 name=nm, result=res, tags=dict(call='to_expr', kind='roundtrip-name')))
+        elif nm not in ("a'b", '_x') and res != 'same' and not res.startswith('declare'):
+            # a declared variable whose name the lexer does not read back as that NAME
+            ctx.violation('add_expr(to_expr(u)) is not u for a variable whose name is not a NAME token', dict(
+                name=nm, result=res, tags=dict(call='to_expr', symptom='variable-name-not-a-NAME-token')))
     ctx.notes.append('add_expr(to_expr(var)) by variable name: ' + '; '.join(out))
 
 
